@@ -1,4 +1,7 @@
-"""C14 — SSA form (partial: the generic SSA driver).
+"""C14 — SSA form: (1) the generic SSA driver on symbolic graphs (this file), (2) the real conversion
+(ssa_impl.rs + driver) on real basic blocks of bounded programs (specs/C14ssa.py).
+
+Part (1):
 
 Engine: mirsym over the MIR of static_single_assignment::{insert_phi_statements, insert_ssa_variables,
 insert_ssa_variables_impl} and DominatorTree::new, with the SSAConfig associated types bound to harness
@@ -12,7 +15,7 @@ Decided for every rooted digraph within the bound and every assignment of writte
     pre-order), with variable scopes balanced and the scope depth equal to the depth in the dominator tree;
   * after a block is renamed, the phi statements of each of its successors are updated exactly once, before
     any block it dominates is renamed.
-Out of scope here: ssa_impl.rs (statement renaming, version keys), i.e. that reads name the right version.
+Statement renaming, version keys and that reads name the right version are decided by part (2).
 """
 import re, json, itertools
 import z3
@@ -46,6 +49,9 @@ def tasks(tier):
 
 
 def run_task(task):
+    if task.get('part') == 'ssa':
+        from . import C14ssa
+        return C14ssa.run_task(task)
     pr = prog(); n = task['n']; nv = task['nv']
     h = Harness(pr, 'structure')
     h.step_budget = 500_000
@@ -174,9 +180,18 @@ def run_task(task):
 
 def main(tier, replay=None):
     rep = common.Report('C14', tier)
+    if replay and json.load(open(replay)).get('part') == 'ssa':
+        from . import C14ssa
+        d = json.load(open(replay)); sh = d['violation']['model'].get('shape', 0)
+        r = C14ssa.run_task({'part': 'ssa', 'lo': sh, 'hi': sh + 1, 'tier': d.get('tier', tier)})
+        bad = [v for v in r['violations']]
+        for v in bad[:3]: print('replay (re-execution of program %d from the current MIR): %s' % (sh, v['msg'][:300]))
+        print('replay: -> %s' % ('VIOLATION' if bad else 'holds')); return 1 if bad else 0
     if replay:
         print('replay: C14 counterexamples concern the generic driver with harness-bound blocks; re-run ./check C14 (the engine re-executes the same path deterministically)'); return 0
-    ts = tasks(tier)
+    from . import C14ssa
+    for msg in C14ssa.validate_native(rep): rep.inconclusive.append(msg)
+    ts = tasks(tier) + C14ssa.tasks(tier)
     results = common.run_tasks('specs.C14', ts)
     known = common.load_known('C14'); seen = {}
     for r in results:
@@ -184,6 +199,18 @@ def main(tier, replay=None):
             rep.inconclusive.append('task %s: %s' % (r['task'], r['error'][:500])); continue
         rep.add_stats(r['stats'])
         for v in r['violations']:
+            if r['task'].get('part') == 'ssa':
+                role = {'function': 'ssa_impl conversion', 'kind': v['kind'], 'class': 'any'}
+                key = json.dumps(role, sort_keys=True)
+                if key in seen: continue
+                seen[key] = 1
+                k = common.match_known(known, role)
+                desc = '%s model %s' % (v['msg'], v['model'])
+                if k: rep.known_hits.append('%s (%s)' % (k['id'], desc[:300]))
+                else:
+                    rep.violations.append(rep.save_replay(role, {'property': 'C14', 'part': 'ssa', 'tier': tier, 'violation': v}))
+                    common.log('VIOLATION detail:', desc)
+                continue
             role = {'function': 'static_single_assignment driver', 'kind': v['kind'], 'class': 'any'}
             key = json.dumps(role, sort_keys=True)
             if key in seen: continue
@@ -198,9 +225,11 @@ def main(tier, replay=None):
                 rep.violations.append(rep.save_replay(role, {'property': 'C14', 'violation': v, 'preds': preds, 'writes': writes}))
                 common.log('VIOLATION detail:', desc)
     pr = prog()
-    rep.bounds = {'graphs': 'every rooted digraph on 1..3 nodes with 2 variables; 4 nodes with 1 variable (%s)' % ('all graphs' if tier == 'thorough' else 'graphs with <= 5 edges'),
+    rep.bounds = {'programs': C14ssa.bounds_text(tier), 'graphs': 'every rooted digraph on 1..3 nodes with 2 variables; 4 nodes with 1 variable (%s)' % ('all graphs' if tier == 'thorough' else 'graphs with <= 5 edges'),
                   'writes': 'every assignment of written variables to blocks (symbolic)'}
-    rep.stubs = ['SSAConfig associated types bound to harness models (blocks, environment); statement-level renaming is a recorded event']
+    rep.stubs = ['part 1: SSAConfig associated types bound to harness models (blocks, environment); statement-level renaming is a recorded event',
+                 'part 2: leaf lifting (ast -> ir statement / condition) returns harness-built IR statements; everything from build_basic_blocks on is the real code']
     rep.assumptions = ['HashSet<usize> / HashSet<Variable> modelled as bit sets iterated in ascending order', 'dominance oracle by paths (same as C15)', 'source hash ' + pr.hashes['structure']]
-    rep.outside = ['ssa_impl.rs: statement renaming, declaration re-issue, version keys (=> that each read names the most recent version)', 'larger graphs']
+    rep.assumptions.append('part 2 replays steps 1-3 of Cfg::into_ssa (Environment::new, insert_phi_statements, insert_ssa_variables, parameters.with_version(0), update_declarations) in source order; the order is compared with the callee sequence in the MIR of into_ssa on every run')
+    rep.outside = ['programs with more statements or other expression forms (calls, inline arrays, switch expressions, component accesses)', 'larger graphs', 'steps 4-5 of into_ssa (type/value/degree propagation after SSA: C06, C07)']
     return rep.finish()
